@@ -33,6 +33,9 @@ def cases(draw):
     for u in DOCS[:n]:
         docs[u] = {"definitions": {"a": draw(leaf), "b": draw(leaf), "x/y": draw(leaf)}}
         docs[u].update(draw(leaf))
+        if draw(st.integers(0, 4)) == 0:
+            # degenerate but legal documents: the empty schema, and (draft 6+) the boolean schemas
+            docs[u] = draw(st.sampled_from([{}, {}, True, False] if d >= 6 else [{}]))
         behaviour[u] = {"mode": draw(st.sampled_from(["ok", "ok", "fail-once", "fail-always"])),
                         "exc": draw(st.sampled_from(sorted(EXC)))}
     store_doc = draw(st.booleans())
@@ -66,7 +69,7 @@ def cases(draw):
         else:
             steps.append(["validate", draw(st.integers(0, 2)), draw(st.integers(0, 3))])
     return {"draft": d, "docs": docs, "behaviour": behaviour, "stored": ["http://ex.test/stored.json"] if store_doc else [],
-            "schemas": schemas, "instances": insts, "steps": steps}
+            "stored_hash": draw(st.booleans()), "schemas": schemas, "instances": insts, "steps": steps}
 
 
 class CountingHandler(object):
@@ -98,7 +101,7 @@ def make_member(case, schema, cache_remote, caches):
     d = case["draft"]
     cls = impl.CLS[d]
     h = CountingHandler(case, None)
-    store = dict((u, copy.deepcopy(case["docs"][u])) for u in case["stored"])
+    store = dict((u + ("#" if case.get("stored_hash") else ""), copy.deepcopy(case["docs"][u])) for u in case["stored"])
     kw = {}
     RefResolver = impl.validators.RefResolver
     root = copy.deepcopy(schema)
